@@ -305,9 +305,10 @@ def transpose(score: ScoreLike, interval: Interval) -> ScoreLike:
     sys.setrecursionlimit(old_recursion_depth)
     if isinstance(score, s.Score):
         for part in new_score.parts:
-            transpose(part, interval)
+            for note in part.notes:
+                _transpose_note_inplace(note, interval)
     elif isinstance(score, s.Part):
-        for note in score.notes_tied:
+        for note in new_score.notes:
             _transpose_note_inplace(note, interval)
     return new_score
 
